@@ -80,6 +80,7 @@ EUn(op, a) == [e |-> "un", op |-> op, a |-> a]
 EIdx(a, i) == [e |-> "idx", a |-> a, i |-> i]
 EAttr(a, n) == [e |-> "attr", a |-> a, n |-> n]
 ERest == [e |-> "rest"]
+EOff == [e |-> "off"]                       \* keyword `offset` of a callable: the position at which the field it sizes begins
 EIPos == [e |-> "ipos"]                     \* keyword `innermost-pkt-pos` of a callable: where the innermost packet starts
 ERoot(n) == [e |-> "root", n |-> n]        \* field n of the packet that started the operation (keyword `root` of a callable)
 \* len(<a>.pack()) inside a callable: the callable itself serialises a (nested) packet, possibly WHILE the enclosing
